@@ -217,6 +217,87 @@ def run_check(tier, seed):
         raise
     except Exception as e:
         run.stat('nat_norm_gen:' + type(e).__name__)
+    # ---- apply_theorem_for on theorems that are not first-order patterns, applied partially:
+    # a schematic variable in function position receives an abstraction that uses, ignores,
+    # duplicates or permutes its arguments; none / one / all of the premises are supplied
+    ho_done = 0
+    try:
+        context.set_context('nat', vars={})
+        from logic import matcher
+        from kernel.term import Lambda, SVar
+        from kernel.type import STVar
+        cands = []
+        for name in sorted(theory.thy.get_data('theorems').keys()):
+            try:
+                th = theory.get_theorem(name)
+            except Exception:
+                continue
+            if th.hyps or matcher.is_fo_pattern(th.prop):
+                continue
+            cands.append((name, th))
+        run.stat('ho-theorems:%d' % len(cands))
+        r.shuffle(cands)
+        nat = TConst('nat')
+
+        def body_for(argTs, resT, k):
+            """k-th abstraction %x1..xn. body of type argTs => resT over fresh free variables."""
+            xs = [Var('x%d' % i, T) for i, T in enumerate(argTs)]
+            if k == 0:      # ignores every argument
+                b = Var('Q0', resT)
+            elif k == 1:    # uses all, in order
+                b = Var('R0', TFun(*(argTs + [resT])))(*xs)
+            elif k == 2:    # uses all, reversed
+                b = Var('S0', TFun(*(list(reversed(argTs)) + [resT])))(*reversed(xs))
+            elif k == 3:    # uses only the last
+                b = Var('U0', TFun(argTs[-1], resT))(xs[-1])
+            else:           # uses the first twice
+                b = Var('W0', TFun(argTs[0], argTs[0], resT))(xs[0], xs[0])
+            for x in reversed(xs):
+                b = Lambda(x, b)
+            return b
+        for name, th in cands[:(25 if tier == 'quick' else 400)]:
+            tyinst = {v.name: nat for v in th.prop.get_stvars()}
+            fvars = [v for v in th.prop.get_svars() if v.T.is_fun()]
+            if not fvars:
+                continue
+            from kernel.type import TyInst
+            ti = TyInst(**tyinst)
+            for k in range(5):
+                inst = Inst()
+                inst.tyinst = TyInst(**tyinst)
+                for v in fvars:
+                    T = v.T.subst(ti)
+                    argTs, resT = T.strip_type()
+                    try:
+                        inst[v.name] = body_for(list(argTs), resT, k)
+                    except Exception:
+                        inst = None
+                        break
+                if inst is None:
+                    continue
+                # premises: none, or the first assumption of the instantiated theorem with the remaining
+                # schematic variables replaced by free variables
+                try:
+                    As, C = th.prop.subst_norm(inst).strip_implies()
+                except Exception:
+                    run.stat('ho-inst-fails')
+                    continue
+                variants = [[]]
+                if As:
+                    rest = Inst(**{v.name: Var('c_' + v.name, v.T) for a in As[:1] for v in a.get_svars()})
+                    try:
+                        variants.append([Thm(As[0].subst(rest), As[0].subst(rest))])
+                    except Exception:
+                        pass
+                for prevs in variants:
+                    res = judge(run, 'apply_theorem_for', (name, copy.deepcopy(inst)), prevs, 'generated', 'generated higher-order application')
+                    run.count(('gen-apply_theorem_for', name, k, len(prevs)), nontrivial=(res == 'agree'))
+                    ho_done += 1
+    except RecursionError:
+        raise
+    except Exception as e:
+        run.stat('ho_gen:' + type(e).__name__ + ':' + str(e)[:80])
+    run.stat('ho-judged:%d' % ho_done)
     run.sample(dict(macro='imp_conj', goal='A & B --> B & A', expected='evaluation and checked expansion agree'))
     run.cov['rule'] = ('macro steps (level >= 1 or unset) of up to %d recorded proofs per theory (%s), each judged in its own context; 15%% with a premise '
                        'dropped, 10%% with premises permuted, 7%% with the goal replaced by another recorded goal; generated imp_conj / imp_disj goals (members '
